@@ -8,8 +8,14 @@
 //! `Router::serve_with_shutdown(addr, signal)` / `Router::serve(addr)` (`TcpIncoming::bind` inside
 //! tonic), with clients connecting real `tokio::net::TcpStream`s; see "TCP variant" below.
 //!
+//! Mode `gs` is mode `g` with a TLS acceptor on the server (`Server::tls_config`, test PKI of
+//! harness/certs): every offered connection first goes through `ServerIoStream`'s handshake
+//! `JoinSet` (io_stream.rs); clients are tonic channels with a `ClientTlsConfig` over the duplex
+//! pipe, plus clients that connect without speaking (`H`, continued by `h<c>`) or that send
+//! something that is not TLS (`Hb`).
+//!
 //! Case grammar (space separated):
-//!   sc[:<generator stream label, not interpreted>] <g|n|t|u> b<duplex buffer> p<payload bytes>
+//!   sc[:<generator stream label, not interpreted>] <g|n|t|u|gs> b<duplex buffer> p<payload bytes>
 //!      a<0|1 max_connection_age configured> <step>*
 //!      (g = serve_with_incoming_shutdown, n = serve_with_incoming, both over in-memory duplex pipes;
 //!       t = serve_with_shutdown(addr, signal), u = serve(addr), both over loopback TCP;
@@ -17,6 +23,9 @@
 //!       fragmentation (ignored over TCP))
 //!   step (optionally suffixed `~<k>`: only k scheduler yields follow instead of a full settle):
 //!     C            offer a connection (index = order of offering) and connect a client over it
+//!     H            (gs) offer a connection whose client does not say anything yet
+//!     h<c>         (gs) the silent client of connection c starts its TLS handshake and connects
+//!     Hb           (gs) offer a connection whose client sends a plain HTTP request instead of TLS
 //!     U<c>:<s>     start a unary call on connection c; handler will answer status s (0 = OK + message)
 //!     S<c>:<n>:<s> start a server-streaming call: headers, n messages, then status s
 //!     Q<c>:<m>:<s> start a client-streaming call: the client will send m request messages (one per
@@ -86,6 +95,9 @@ use tonic::{Request, Response, Status};
 #[derive(Clone, Debug, PartialEq)]
 enum Op {
     Conn,
+    ConnStalled,
+    ConnBad,
+    Hello(usize),
     Unary(usize, i32),
     Stream(usize, usize, i32),
     CStream(usize, usize, i32),
@@ -115,6 +127,7 @@ enum Transport {
 struct Script {
     graceful: bool,
     transport: Transport,
+    tls: bool,
     buf: usize,
     payload: usize,
     age: bool,
@@ -126,11 +139,12 @@ fn parse(case: &str) -> Option<Script> {
     if t.len() < 5 || !t[0].starts_with("sc") {
         return None;
     }
-    let (graceful, transport) = match t[1] {
-        "g" => (true, Transport::Duplex),
-        "n" => (false, Transport::Duplex),
-        "t" => (true, Transport::Tcp),
-        "u" => (false, Transport::Tcp),
+    let (graceful, transport, tls) = match t[1] {
+        "g" => (true, Transport::Duplex, false),
+        "n" => (false, Transport::Duplex, false),
+        "t" => (true, Transport::Tcp, false),
+        "u" => (false, Transport::Tcp, false),
+        "gs" => (true, Transport::Duplex, true),
         _ => return None,
     };
     let buf: usize = t[2].strip_prefix('b')?.parse().ok()?;
@@ -153,6 +167,21 @@ fn parse(case: &str) -> Option<Script> {
             ("C", []) => {
                 nconn += 1;
                 Op::Conn
+            }
+            ("H", []) if tls => {
+                nconn += 1;
+                Op::ConnStalled
+            }
+            ("H", ["b"]) if tls => {
+                nconn += 1;
+                Op::ConnBad
+            }
+            ("h", [c]) if tls => {
+                let c: usize = c.parse().ok()?;
+                if c >= nconn {
+                    return None;
+                }
+                Op::Hello(c)
             }
             ("U", [c, s]) => {
                 let c: usize = c.parse().ok()?;
@@ -241,7 +270,7 @@ fn parse(case: &str) -> Option<Script> {
         }
         steps.push(Step { op, yields });
     }
-    Some(Script { graceful, transport, buf, payload, age, steps })
+    Some(Script { graceful, transport, tls, buf, payload, age, steps })
 }
 
 // ---------------------------------------------------------------- shared observation state
@@ -1088,8 +1117,55 @@ async fn after_step(y: Option<usize>) {
     }
 }
 
+const CA1: &str = include_str!("../certs/ca1.pem");
+const S1GOOD: &str = include_str!("../certs/s1good.pem");
+const S1GOOD_KEY: &str = include_str!("../certs/s1good.key.pem");
+
+fn tls_endpoint() -> Endpoint {
+    let cfg = tonic::transport::ClientTlsConfig::new()
+        .ca_certificate(tonic::transport::Certificate::from_pem(CA1))
+        .domain_name("good.test");
+    Endpoint::from_static("https://good.test").tls_config(cfg).expect("client tls config")
+}
+
+/// one client connection over a duplex pipe, with or without TLS
+async fn connect_duplex(cli: DuplexStream, tls: bool) -> Option<tonic::transport::Channel> {
+    let mut cli = Some(cli);
+    let connector = tower::service_fn(move |_: Uri| {
+        let c = cli.take();
+        async move {
+            match c {
+                Some(c) => Ok(hyper_util::rt::TokioIo::new(c)),
+                None => Err(std::io::Error::other("connection already used")),
+            }
+        }
+    });
+    let ep = if tls { tls_endpoint() } else { Endpoint::from_static("http://[::]:50051") };
+    ep.connect_with_connector(connector).await.ok()
+}
+
+/// the client side of connection c: a channel, none (the connection attempt failed), or an
+/// attempt that is still going on (TLS: the handshake needs the server to answer)
+enum Slot {
+    Now(Option<tonic::transport::Channel>),
+    Later(tokio::sync::watch::Receiver<Option<Option<tonic::transport::Channel>>>),
+}
+
+impl Slot {
+    fn is_live(&self) -> bool {
+        match self {
+            Slot::Now(c) => c.is_some(),
+            Slot::Later(rx) => !matches!(&*rx.borrow(), Some(None)),
+        }
+    }
+}
+
 fn new_router(sc: &Script, sh: &Sh) -> tonic::transport::server::Router {
     let mut builder = Server::builder();
+    if sc.tls {
+        let id = tonic::transport::Identity::from_pem(S1GOOD, S1GOOD_KEY);
+        builder = builder.tls_config(tonic::transport::ServerTlsConfig::new().identity(id)).expect("server tls config");
+    }
     if sc.age {
         builder = builder.max_connection_age(AGE);
     }
@@ -1196,7 +1272,13 @@ async fn run(sc: Script) -> String {
     }
     let mut exp = Expect { graceful_mode: graceful, age: sc.age, ..Default::default() };
 
-    let mut channels: Vec<Option<tonic::transport::Channel>> = Vec::new();
+    let mut channels: Vec<Slot> = Vec::new();
+    // TLS: connection attempts in progress, silent clients (client end, result sender), and the
+    // client ends of connections that only have to stay open
+    let mut conn_tasks: Vec<Option<tokio::task::JoinHandle<()>>> = Vec::new();
+    type Hello = (DuplexStream, tokio::sync::watch::Sender<Option<Option<tonic::transport::Channel>>>);
+    let mut silent: Vec<Option<Hello>> = Vec::new();
+    let mut held: Vec<Option<DuplexStream>> = Vec::new();
     let mut call_tasks: Vec<(usize, tokio::task::JoinHandle<()>)> = Vec::new(); // (conn, task) by call index
     let mut req_tx: Vec<ReqTx> = Vec::new(); // request side of call k, while it is still open
 
@@ -1212,15 +1294,11 @@ async fn run(sc: Script) -> String {
                     g.conns.len() - 1
                 };
                 let gone = sh.lock().unwrap().resolved.is_some();
-                let r = if tcp && gone {
+                let r: Result<tonic::transport::Channel, ()> = if tcp && gone {
                     // The listener went with the serve future.  Whoever owns that port now (another
                     // scenario running in parallel may have been given it), it is not the server
                     // under test: the connection counts as refused, without touching the network.
-                    Endpoint::from_static("http://127.0.0.1:50051")
-                        .connect_with_connector(tower::service_fn(|_: Uri| async {
-                            Err::<hyper_util::rt::TokioIo<tokio::net::TcpStream>, _>(std::io::Error::from(std::io::ErrorKind::ConnectionRefused))
-                        }))
-                        .await
+                    Err(())
                 } else if let Some(addr) = tcp_addr {
                     let mut used = false;
                     let shc = sh.clone();
@@ -1250,6 +1328,14 @@ async fn run(sc: Script) -> String {
                             }
                         })))
                         .await
+                        .map_err(|_| ())
+                } else {
+                    Err(())
+                };
+                conn_tasks.push(None);
+                held.push(None);
+                let slot = if tcp {
+                    Slot::Now(r.ok())
                 } else {
                     let (cli, srv) = tokio::io::duplex(sc.buf);
                     if let Some(tx) = &inc_tx {
@@ -1257,27 +1343,62 @@ async fn run(sc: Script) -> String {
                     } else {
                         drop(srv);
                     }
-                    let mut cli = Some(cli);
-                    Endpoint::from_static("http://[::]:50051")
-                        .connect_with_connector(tower::service_fn(move |_: Uri| {
-                            let c = cli.take();
-                            async move {
-                                match c {
-                                    Some(c) => Ok(hyper_util::rt::TokioIo::new(c)),
-                                    None => Err(std::io::Error::other("connection already used")),
-                                }
-                            }
-                        }))
-                        .await
+                    if sc.tls {
+                        // the TLS handshake needs the server's answer: connect in the background
+                        let (tx, rx) = tokio::sync::watch::channel(None);
+                        conn_tasks[id] = Some(tokio::spawn(async move {
+                            let ch = connect_duplex(cli, true).await;
+                            let _ = tx.send(Some(ch));
+                        }));
+                        Slot::Later(rx)
+                    } else {
+                        Slot::Now(connect_duplex(cli, false).await)
+                    }
                 };
+                silent.push(None);
                 let resolved = sh.lock().unwrap().resolved.is_some();
                 exp.conns.push(ExpConn {
-                    accept: r.is_ok() && !resolved && !(graceful && exp.sig),
+                    accept: slot.is_live() && !resolved && !(graceful && exp.sig),
                     acc_at: exp.now,
                     aged: false,
                     dropped: false,
                 });
-                channels.push(r.ok());
+                channels.push(slot);
+            }
+            Op::ConnStalled | Op::ConnBad => {
+                let id = {
+                    let mut g = sh.lock().unwrap();
+                    g.conns.push(ConnRec::default());
+                    g.conns.len() - 1
+                };
+                let (mut cli, srv) = tokio::io::duplex(sc.buf);
+                if let Some(tx) = &inc_tx {
+                    let _ = tx.send(Ok(SrvIo { inner: srv, id, sh: sh.clone() }));
+                } else {
+                    drop(srv);
+                }
+                exp.conns.push(ExpConn { accept: false, acc_at: 0, aged: false, dropped: false });
+                conn_tasks.push(None);
+                held.push(None);
+                if step.op == Op::ConnBad {
+                    // 18 bytes: fits the smallest duplex buffer, so this cannot block
+                    let _ = tokio::io::AsyncWriteExt::write_all(&mut cli, b"GET / HTTP/1.1\r\n\r\n").await;
+                    held[id] = Some(cli);
+                    silent.push(None);
+                    channels.push(Slot::Now(None));
+                } else {
+                    let (tx, rx) = tokio::sync::watch::channel(None);
+                    silent.push(Some((cli, tx)));
+                    channels.push(Slot::Later(rx));
+                }
+            }
+            Op::Hello(c) => {
+                if let Some((cli, tx)) = silent[c].take() {
+                    conn_tasks[c] = Some(tokio::spawn(async move {
+                        let ch = connect_duplex(cli, true).await;
+                        let _ = tx.send(Some(ch));
+                    }));
+                }
             }
             Op::Unary(c, s) | Op::Stream(c, _, s) | Op::CStream(c, _, s) | Op::Bidi(c, _, _, s) => {
                 let (kind, n, m) = match step.op {
@@ -1314,7 +1435,7 @@ async fn run(sc: Script) -> String {
                 };
                 exp.calls.push(ExpCall {
                     conn: c,
-                    start: channels[c].is_some() && exp.conns[c].accept && !exp.conns[c].dropped && !exp.conn_graceful(c),
+                    start: channels[c].is_live() && exp.conns[c].accept && !exp.conns[c].dropped && !exp.conn_graceful(c),
                     kind,
                     n,
                     phases: match kind {
@@ -1325,14 +1446,30 @@ async fn run(sc: Script) -> String {
                     req_left: m,
                     cancelled: false,
                 });
-                match channels[c].clone() {
-                    Some(ch) => {
-                        let h = tokio::spawn(client_call(sh.clone(), ch, k, rx));
+                match &channels[c] {
+                    Slot::Now(Some(ch)) => {
+                        let h = tokio::spawn(client_call(sh.clone(), ch.clone(), k, rx));
                         call_tasks.push((c, h));
                     }
-                    None => {
+                    Slot::Now(None) => {
                         finish(&sh, k, "s14!".into());
                         call_tasks.push((c, tokio::spawn(async {})));
+                    }
+                    Slot::Later(chan) => {
+                        // the call goes out as soon as the connection attempt has ended
+                        let mut chan = chan.clone();
+                        let shc = sh.clone();
+                        let h = tokio::spawn(async move {
+                            let ch = match chan.wait_for(|v| v.is_some()).await {
+                                Ok(v) => v.clone().flatten(),
+                                Err(_) => None,
+                            };
+                            match ch {
+                                Some(ch) => client_call(shc, ch, k, rx).await,
+                                None => finish(&shc, k, "s14!".into()),
+                            }
+                        });
+                        call_tasks.push((c, h));
                     }
                 }
             }
@@ -1369,7 +1506,12 @@ async fn run(sc: Script) -> String {
                         req_tx[k] = None;
                     }
                 }
-                channels[c] = None;
+                if let Some(h) = conn_tasks[c].take() {
+                    h.abort();
+                }
+                channels[c] = Slot::Now(None);
+                silent[c] = None;
+                held[c] = None;
                 exp.conns[c].dropped = true;
             }
             Op::Cancel(k) => {
@@ -1423,7 +1565,12 @@ async fn run(sc: Script) -> String {
         h.abort();
     }
     req_tx.clear();
+    for h in conn_tasks.iter().flatten() {
+        h.abort();
+    }
     channels.clear();
+    silent.clear();
+    held.clear();
     for c in exp.conns.iter_mut() {
         c.dropped = true;
     }
@@ -1720,6 +1867,19 @@ fn corpus() -> Vec<String> {
         "sc:corpus t b0 p10 a0 C U0:0 S0:1:0 A1 G X0 A1 A1",
         "sc:corpus u b0 p10 a0 C U0:0 G A0",
         "sc:corpus u b0 p10 a0 C S0:1:0 A0 W7200 A0 A0 C U1:5 A1",
+        // the TLS accept path (ServerIoStream's handshake JoinSet)
+        "sc:corpus gs b1024 p10 a0 C U0:0 G A0",
+        "sc:corpus gs b1024 p10 a0 H G h0 U0:0",
+        "sc:corpus gs b1024 p10 a0 H h0 U0:0 G A0",
+        "sc:corpus gs b1024 p10 a0 Hb C U1:0 A0 G",
+        "sc:corpus gs b1024 p10 a0 Hb Hb C Hb C U2:0 U4:5 A0 A1 G",
+        "sc:corpus gs b1024 p10 a0 C S0:2:0 A0 H G h1 U1:0 A0 A0 A0",
+        "sc:corpus gs b1024 p10 a0 G C U0:0",
+        "sc:corpus gs b1024 p10 a0 H E h0 U0:0",
+        "sc:corpus gs b1024 p10 a0 H C U1:0 D0 A0 G",
+        "sc:corpus gs b24 p300 a0 C H Hb U0:0 Q0:2:0 M1 G h1 A0 M1 A1 U1:0",
+        "sc:corpus gs b1024 p10 a0 C U0:0 H G W61 A0",
+        "sc:corpus gs b1024 p10 a1 C H U0:0 T h1 U1:0 A0 A1 G",
         // time passes (task: anything clock-dependent after the signal must get its chance)
         "sc:corpus g b1024 p10 a0 C U0:0 G W61 A0",
         "sc:corpus g b1024 p10 a0 C S0:2:0 A0 G T A0 A0 A0",
@@ -1787,7 +1947,7 @@ fn placements(out: &mut Vec<String>, rng: &mut Rng, g: &Gen, mode: &str, trig: &
         if probe {
             // the late connection goes in somewhere after the trigger
             // (after the last base connection, so that connection indices stay as they are)
-            let last_c = ops.iter().rposition(|t| t == "C").map(|i| i + 1).unwrap_or(0);
+            let last_c = ops.iter().rposition(|t| t == "C" || t == "H" || t == "Hb").map(|i| i + 1).unwrap_or(0);
             let lo = (at + 1).max(last_c);
             let pos = rng.range(lo as u64, ops.len() as u64) as usize;
             ops = insert_at(&ops, pos, &late_probe(g.nconn));
@@ -1799,7 +1959,7 @@ fn placements(out: &mut Vec<String>, rng: &mut Rng, g: &Gen, mode: &str, trig: &
             ops = add_races(&ops, rng, races);
         }
         let tname = if trig.starts_with('W') { "W" } else { trig };
-        let class = format!("{}place{}{}{}{}", if mode == "t" { "tcp-" } else { "" }, tname, if mode == "n" { "-nosignal" } else { "" }, if races > 0 { "-race" } else { "" }, if timed { "-timed" } else { "" });
+        let class = format!("{}place{}{}{}{}", if mode == "t" { "tcp-" } else if mode == "gs" { "tls-" } else { "" }, tname, if mode == "n" { "-nosignal" } else { "" }, if races > 0 { "-race" } else { "" }, if timed { "-timed" } else { "" });
         let buf = if mode == "t" { 0 } else { buf };
         out.push(format!("{} {}", header(&class, mode, buf, payload, age), ops.join(" ")));
     }
@@ -1859,6 +2019,45 @@ fn phases(out: &mut Vec<String>, rng: &mut Rng, n: usize) {
         }
         let class = format!("phases{}{}", trig, if racy { "-race" } else { "" });
         out.push(format!("{} {}", header(&class, "g", buf, payload, false), ops.join(" ")));
+    }
+}
+
+/// the TLS accept path (mode gs): ordinary TLS clients, clients whose handshake is still in
+/// progress when the trigger comes (`H` … `h<c>`), clients whose handshake fails (`Hb`); the
+/// trigger (signal, or end of incoming) at every position
+fn tls_scenarios(out: &mut Vec<String>, rng: &mut Rng, n: usize) {
+    for i in 0..n {
+        let finish = rng.chance(3, 4);
+        let mut g = base_scenario(rng, 3, 3, finish);
+        // some connections get a silent or a non-TLS client
+        let mut c = 0usize;
+        let mut ops: Vec<String> = Vec::new();
+        let mut hellos: Vec<(usize, usize)> = Vec::new(); // (position of H, connection)
+        for t in g.ops.iter() {
+            if t == "C" {
+                match rng.below(8) {
+                    0 | 1 if c > 0 || rng.chance(1, 2) => {
+                        hellos.push((ops.len(), c));
+                        ops.push("H".into());
+                    }
+                    2 => ops.push("Hb".into()),
+                    _ => ops.push("C".into()),
+                }
+                c += 1;
+            } else {
+                ops.push(t.clone());
+            }
+        }
+        // most silent clients speak up later, somewhere
+        for (pos, c) in hellos.iter().rev() {
+            if rng.chance(3, 4) {
+                let at = rng.range(*pos as u64 + 1, ops.len() as u64) as usize;
+                ops = insert_at(&ops, at, &[format!("h{}", c)]);
+            }
+        }
+        g.ops = ops;
+        let trig = if i % 4 == 3 { "E" } else { "G" };
+        placements(out, rng, &g, "gs", trig, false, true, 0);
     }
 }
 
@@ -2079,6 +2278,7 @@ pub fn generate(tier: &str, rng: &mut Rng) -> Vec<String> {
         structured(&mut out, rng, 10000, 4, 6);
         phases(&mut out, rng, 20000);
         tcp_scenarios(&mut tcp, rng, 400);
+        tls_scenarios(&mut out, rng, 1500);
         disturbed(&mut out, rng, 90000, 4, 6);
         exhaustive(&mut out, 6);
         // every scenario up to length 5 again, with every step / random steps non-quiescent
@@ -2089,6 +2289,7 @@ pub fn generate(tier: &str, rng: &mut Rng) -> Vec<String> {
         structured(&mut out, rng, 160, 3, 4);
         phases(&mut out, rng, 300);
         tcp_scenarios(&mut tcp, rng, 24);
+        tls_scenarios(&mut out, rng, 30);
         disturbed(&mut out, rng, 800, 3, 4);
         exhaustive(&mut out, 4);
         let mut ex = Vec::new();
